@@ -218,6 +218,10 @@ def check(cx):
             continue
         news = [c for c in f.calls() if c.callee.endswith("WalReader::<'a>::new") or c.callee.endswith("WalReader::new")]
         good = bool(news)
+        if not news and site != WAL + "::reader" and any(c.callee == WAL + "::reader" for c in f.calls()):
+            # the analysis obtains its reader from WriteAheadLog::reader, which is judged on its own
+            cx.ok(r5, site.rsplit("::", 1)[-1] + ":total_blocks-from-header", f.where(), "reader obtained from WriteAheadLog::reader")
+            continue
         for c in news:
             l = op_local(c.args[3])
             cl = f.dep_closure(l) | {l}
